@@ -56,13 +56,23 @@ def boolOf : String → Option Bool
 /-- plain access on a field that is an atomic's storage (shim-internal access seen by the arena-wide tap) -/
 def isAtomicStorage (name : String) : Bool := (fldOf name).isSome
 
-def parse (_a : Unit) (t : Tid) (ts : List String) : Unit × Option (Option Ev) :=
+/-- driver events: a model event, or the bracket of a client macro (`all`, `eri=i`, `erv=v`) with the values a complete
+traversal returned -/
+inductive DEv
+  | m (e : Ev)
+  | macB (name : String) (arg : Int)
+  | macE (name : String) (vals : List Int)
+
+def macOf (op : String) : String × Int :=
+  match op.splitOn "=" with
+  | [k, a] => (k, a.toInt?.getD 0)
+  | _ => (op, 0)
+
+def parseM (_a : Unit) (t : Tid) (ts : List String) : Unit × Option (Option Ev) :=
   ((), match ts with
   | ["call", k] => (opOf k).map (fun k => some (.call k))
   | "ret" :: k :: _ => (opOf (if k = "ers" then "erc" else k)).map (fun k => some (.ret k))
   | ["exc", k] => (opOf k).map (fun k => some (.exc k))
-  | "mac" :: _ => some none
-  | "mend" :: _ => some none
   | "pct" :: _ => some none
   | "pdt" :: _ => some none
   | "uth" :: _ => some none
@@ -124,6 +134,16 @@ def parse (_a : Unit) (t : Tid) (ts : List String) : Unit × Option (Option Ev) 
         | _ => none
       else none
   | _ => none)
+
+def parse (a : Unit) (t : Tid) (ts : List String) : Unit × Option (Option DEv) :=
+  match ts with
+  | ["mac", op] => let (k, i) := macOf op; ((), some (some (.macB k i)))
+  | ["mend", op] => ((), some (some (.macE (macOf op).1 [])))
+  | ["mend", op, vs] =>
+      match (vs.splitOn "/").mapM String.toInt? with
+      | some vals => ((), some (some (.macE (macOf op).1 vals)))
+      | none => ((), none)
+  | _ => let (a', r) := parseM a t ts; (a', r.map (fun o => o.map DEv.m))
 
 def pcName : Pc → String
   | .idle => "idle" | .called _ => "called" | .retp _ => "retp"
@@ -211,19 +231,93 @@ def showO (o : Option Nat) : String :=
 def hndName : Hnd → String
   | .none => "none" | .fresh w => s!"fresh({w})" | .reg w r => s!"reg({w},Z{r})"
 
-/-- the model's `step`, followed by the executable invariant monitor of `Driver/RcuInv.lean`: a state that breaks an
-invariant is remembered and the next event of the run is rejected with the broken clause in the message -/
-def stepM (s : St × Option String) (t : Tid) (e : Ev) : Option (St × Option String) :=
-  match s.2 with
+/-- Sequential differential (C12): a reference list of element values on which only `List` operations are performed.
+It follows the run as long as the run is sequential at the level of the client's operations — a single client thread that
+moves its iterator only inside the macros `all`, `eri=i`, `erv=v` — and is compared with every complete traversal the
+real list returns and, when the list destructor is called, with the model's linked list. -/
+structure Ref where
+  on : Bool := true
+  who : Option Tid := none
+  lst : List Int := []
+  inMac : Bool := false
+  /-- the erase the running macro is about to perform: by index or by value -/
+  pend : Option (Bool × Int) := none
+
+structure DSt where
+  s : St
+  bad : Option String := none
+  ref : Ref := {}
+
+def modelVals (s : St) : List Int := s.lst.map (fun n => (s.nodes n).val)
+
+def refCall (r : Ref) (t : Tid) (k : Op) : Ref :=
+  let r := match r.who with
+    | none => { r with who := some t }
+    | some u => if u = t then r else { r with on := false }
+  match k with
+  | .beg | .nxt | .der | .erase _ => if r.inMac then r else { r with on := false }
+  | _ => r
+
+/-- the reference after a model event; `some msg` if the differential fails -/
+def refStep (r : Ref) (s : St) (t : Tid) (e : Ev) : Ref × Option String :=
+  match e with
+  | .call .dtor =>
+      if r.on ∧ modelVals s ≠ r.lst then
+        (r, some s!"sequential differential: the list holds {modelVals s} when it is destroyed, the reference list {r.lst}")
+      else (r, none)
+  | .call k => (refCall r t k, none)
+  | .ret (.push f _ v) => ({ r with lst := if f then v :: r.lst else r.lst ++ [v] }, none)
+  | .ret (.erase _) =>
+      match r.pend with
+      | some (true, i) => ({ r with lst := r.lst.eraseIdx i.toNat, pend := none }, none)
+      | some (false, v) => ({ r with lst := r.lst.erase v, pend := none }, none)
+      | none => (r, none)
+  | _ => (r, none)
+
+def refMac (r : Ref) (e : DEv) : Ref × Option String :=
+  match e with
+  | .macB "eri" i => ({ r with inMac := true, pend := some (true, i) }, none)
+  | .macB "erv" v => ({ r with inMac := true, pend := some (false, v) }, none)
+  | .macB _ _ => ({ r with inMac := true, pend := none }, none)
+  | .macE "all" vals =>
+      if r.on ∧ vals ≠ r.lst then
+        ({ r with inMac := false, pend := none },
+          some s!"sequential differential: the traversal returned {vals}, the reference list is {r.lst}")
+      else ({ r with inMac := false, pend := none }, none)
+  | .macE _ _ => ({ r with inMac := false, pend := none }, none)
+  | .m _ => (r, none)
+
+/-- the model's `step`, followed by the executable invariant monitor of `Driver/RcuInv.lean` and the sequential
+differential: a state that breaks an invariant (or a traversal that differs from the reference list) is remembered and
+the next event of the run is rejected with the reason in the message -/
+def stepM (d : DSt) (t : Tid) (e : DEv) : Option DSt :=
+  match d.bad with
   | some _ => none
-  | none => (step s.1 t e).map (fun s' => (s', RcuInv.check s' (List.range 10)))
+  | none =>
+    match e with
+    | .m ev =>
+        (step d.s t ev).map (fun s' =>
+          let (r', why) := refStep d.ref d.s t ev
+          { s := s', bad := (RcuInv.check s' (List.range 10)).orElse (fun _ => why), ref := r' })
+    | _ =>
+        let (r', why) := refMac d.ref e
+        some { d with bad := why, ref := r' }
+
+def edgeM (d : DSt) (t : Tid) (e : DEv) : String :=
+  match e with
+  | .m ev => edge d.s t ev
+  | .macB k _ => if d.ref.on then "seq/mac-" ++ k else "mac"
+  | .macE "all" _ => if d.ref.on then "seq/all-checked" else "mend"
+  | .macE _ _ => "mend"
 
 def comp : Comp :=
-  { name := "rcu", St := St × Option String, Ev := Ev,
-    init := fun _ => some (init, none),
-    Aux := Unit, aux0 := (), parse := parse, step := stepM, edge := fun s => edge s.1, edges := edges,
-    descr := fun (s, bad) t =>
-      (match bad with | some w => s!"INVARIANT-BROKEN[{w}] " | none => "") ++
+  { name := "rcu", St := DSt, Ev := DEv,
+    init := fun _ => some { s := init },
+    Aux := Unit, aux0 := (), parse := parse, step := stepM, edge := edgeM,
+    edges := edges ++ ["seq/mac-all", "seq/mac-eri", "seq/mac-erv", "seq/all-checked"],
+    descr := fun d t =>
+      let s := d.s
+      (match d.bad with | some w => s!"INVARIANT-BROKEN[{w}] " | none => "") ++
       s!"pc={repr (s.pc t)} hnd={hndName (s.hnd t)} it={repr (s.it t)} head={showO s.head} tail={showO s.tail} zhead={showO s.zhead} wmtx={s.wmtx} nN={s.nN} nR={s.nR} log={s.log} lst={s.lst} live={s.live} dt={s.dt}" }
 
 end Driver.RcuD
